@@ -13,7 +13,7 @@ PROP_BITS = (1, 2, 3, 4, 5, 6)
 
 def corpus_cases():
     out = []
-    for p in sorted(glob.glob(os.path.join(env.VERIF, "corpus", "treedist", "*.json"))):
+    for p in sorted(glob.glob(os.path.join(env.VERIF, "corpus", "treedist", "regressions*.json"))):
         for c in json.load(open(p))["cases"]:
             out.append(treedist.from_json(c))
     return out
@@ -33,6 +33,65 @@ def streams(tier, seed):
     out.append(("td_orderings", list(treedist.ordering_cases(rng, 12 if quick else 80, cap=100 if quick else 720))))
     out.append(("td_random", [treedist.gen_case(rng) for _ in range(1000 if quick else 12000)]))
     return out
+
+
+OBJ = treedist.OBJ
+OB_BITS = (1, 2, 3, 4, 5, 6, 7)
+
+
+def object_streams(tier, seed):
+    rng = random.Random(seed + 15)
+    n = 250 if tier == "quick" else 4000
+    return [("td_objects", [treedist.gen_object_case(rng, history=False) for _ in range(n)]),
+            ("td_histories", [treedist.gen_object_case(rng, history=True) for _ in range(n)])]
+
+
+def known_witnesses(run, d, quiet=False):
+    """Known findings of C15 (known_findings.json, status 'known') about taxon names outside the clean alphabet.
+    Each witness (corpus/treedist/known_*.json) is run with the name guard of its class lifted.  Still failing in the
+    recorded way + listed -> one KNOWN-FINDING line, and the generated object streams keep that name class out of the
+    affected clauses.  No longer failing -> the guard is lifted for the generated streams (the class is then checked
+    like any other name).  Failing differently, or failing without an entry in known_findings.json -> VIOLATION."""
+    entries = {e.get("signature"): e for e in report.known_findings(PROP) if e.get("status") == "known"}
+    out = {}
+    OBJ.lift_q = OBJ.lift_s = OBJ.lift_b = False
+    for p in sorted(glob.glob(os.path.join(env.VERIF, "corpus", "treedist", "known_*.json"))):
+        w = json.load(open(p, encoding="utf8"))
+        sig, case = w["signature"], OBJ.from_json(w["case"])
+        saved = (OBJ.lift_q, OBJ.lift_s, OBJ.lift_b)
+        OBJ.lift_q, OBJ.lift_s, OBJ.lift_b = w["lifts"]["lift_q"], w["lifts"]["lift_s"], w["lifts"]["lift_b"]
+        try:
+            res = OBJ.run_impl(case)
+            bad = coqrun.eval_cases(d, "known_" + sig.replace("-", "_"), OBJ.IMPORTS, "ob_case", "ob_case_code",
+                                    [OBJ.render(case, res)])
+        finally:
+            OBJ.lift_q, OBJ.lift_s, OBJ.lift_b = saved
+        code = bad.get(0, 0)
+        bits = [k for k in range(16) if code >> k & 1]
+        recorded = any(k in bits for k in w["expect_bits"]) and all(k in w["allowed_bits"] for k in bits)
+        if not code:
+            out[sig] = "no longer fails: name class checked like any other"
+            if sig == "quoted-name-position":
+                OBJ.lift_q = True
+            elif sig == "structural-char-in-name":
+                OBJ.lift_s = True
+            else:
+                OBJ.lift_b = True
+        elif recorded and sig in entries:
+            out[sig] = "still fails as recorded"
+            e = entries[sig]
+            if not quiet:
+                run.known_finding("%s %s: %s" % (e.get("id", ""), sig, e.get("what", w["what"])))
+        else:
+            out[sig] = "fails differently / not listed"
+            if not quiet:
+                run.violation({"stream": "known_witness", "signature": sig, "kind": "the witness of a name-class finding fails "
+                           "and is not listed in known_findings.json with status 'known' (or fails in another way than "
+                           "recorded)", "what": w["what"], "code": code, "failed": [OBJ.BITS.get(k, k) for k in bits],
+                           "case": OBJ.jsonable(case, res)}, no_input=False)
+    if OBJ.lift_s and not OBJ.lift_q:
+        OBJ.lift_s = False          # scanner characters are quoted names too
+    run.coverage["known_witnesses"] = out
 
 
 def _failing_taxa(run, limit=3):
@@ -73,6 +132,10 @@ def main(tier, seed):
             st = driver.run_stream(run, treedist, cases, d, name, "td_case", "td_case_code", PROP_BITS, shard=150)
             total_prop += st["prop_fail"] + st["impl_errors"]
             total_corr += st["corr_fail"]
+        known_witnesses(run, d)
+        for name, cases in object_streams(tier, seed):
+            st = driver.run_stream(run, OBJ, cases, d, name, "ob_case", "ob_case_code", OB_BITS, shard=150)
+            total_prop += st["prop_fail"] + st["impl_errors"]
         if total_corr and not total_prop:
             # the model no longer describes the implementation but no checker rejected anything yet:
             # look harder for a failing input, on the taxa of the disagreeing cases
@@ -96,7 +159,10 @@ def main(tier, seed):
                  "236^2 pairs on 5 taxa (mixed names); for random trees on 4-6 taxa every child ordering of a (capped at %d per tree); "
                  "seeded random pairs on 4-9 taxa (binary and multifurcating; identical, neighbouring, random, star, "
                  "other-taxa and fewer-taxa partners; with and without branch lengths, also on the root; plain, "
-                 "white-space-laden and semicolon-less texts; seven name alphabets).  Non-trivial = same taxon set of size "
+                 "white-space-laden and semicolon-less texts; seven name alphabets).  Object streams: Tree objects with "
+                 "odd-but-legal names (blanks, quoted labels with _ [ ] quotes , : ; parentheses), all five Newick writers "
+                 "re-parsed, and histories on one object (use, then swap/rename tips, reverse children, move/remove a tip, "
+                 "use again) checked against the reference values of the tree the object should now be.  Non-trivial = same taxon set of size "
                  ">= 4, no unary node, both trees have a non-trivial bipartition and a numeric rf came back; distinct by "
                  "full input." % ("1/97" if tier == "quick" else "all", 100 if tier == "quick" else 720))
     c["exhaustive"] = False
@@ -119,6 +185,19 @@ def main(tier, seed):
 def replay(path):
     rep = json.load(open(path))
     env.use_repo()
+    if "a0" in rep.get("case", {}):
+        d = coqrun.rundir(PROP + "_replay")
+        if rep.get("stream") != "known_witness":
+            known_witnesses(report.Run(PROP, "replay", 0), d, quiet=True)      # sets the name-class guards
+        else:
+            OBJ.lift_q = OBJ.lift_s = OBJ.lift_b = True
+        case = OBJ.from_json(rep["case"])
+        res = OBJ.run_impl(case)
+        bad = coqrun.eval_cases(d, "replay", OBJ.IMPORTS, "ob_case", "ob_case_code", [OBJ.render(case, res)])
+        code = bad.get(0, 0)
+        print(json.dumps({"impl": OBJ.jsonable(case, res)["impl"], "expected": OBJ.jsonable(case, res)["expected"],
+                          "code": code, "failed": [OBJ.BITS[k] for k in range(8) if code >> k & 1]}, indent=1))
+        return 1 if code else 0
     case = treedist.from_json(rep["case"])
     res = treedist.run_impl(case)
     d = coqrun.rundir(PROP + "_replay")
